@@ -49,7 +49,8 @@ def run_seed(seed_dir, props=None, tier="quick", keep=False):
             ev = os.path.join(out, "evidence", p + ".json")
             if os.path.exists(ev):
                 e = json.load(open(ev))
-                how = [v.get("obligation", v.get("kind", ""))[:80] for v in e.get("violations", [])][:4]
+                cov = e.get("coverage", {})
+                how = {"refuted": [str(x)[:90] for x in cov.get("refuted", [])][:4], "undecided": len(cov.get("undecided", []))}
             res.append((os.path.basename(seed_dir), p, c.returncode, demo_rc, [l for l in lines if not l.startswith("KNOWN")][:6], how, round(dt)))
             if keep:
                 shutil.copytree(out, os.path.join("/tmp", f"seedres_{os.path.basename(seed_dir)}_{p}"), dirs_exist_ok=True)
